@@ -40,3 +40,13 @@ def units(prop, tier):
         return [pyvc_unit(prop, 'openssh.readers', registry, [O + f for f in ('read_int4', 'read_bytes', 'read_string')]),
                 pyvc_unit(prop, 'openssh.check_padding', registry, [O + 'check_padding'])]
     return []
+
+
+# ======================================================================================================================================
+# Vacuity / strength checks (lib/Crypto/PublicKey/_openssh.py, C13 --only openssh.):
+#   `if len(data) < 4:` -> `< 3`                          exit 1  read_int4.raises_only.error (struct.error escapes; native replay confirmed, data = 00 00 00)
+#   `if len(data) < size:` -> `<=`                        exit 1  read_bytes.raises_iff.ValueError.only_if (native replay confirmed)
+#   `return data[:size], data[size:]` -> `data[size+1:]`  exit 1  read_bytes.ensures.rest / .partition (native replay confirmed)
+#   `((v + 1) & 0xFF)` -> `(v & 0xFF)`                    exit 1  check_padding.loop_inv_preserved + raises_iff.ValueError.only_if (native replay: pad = 01)
+#   local `size` renamed                                  exit 0
+# NOT PROVED: import_openssh_private_generic (bcrypt KDF loop, AES-CTR, 'openssh-key-v1' container): bounded harness (bounded/kdfs.py, C08 round trips).
